@@ -53,6 +53,7 @@ type caseSpec struct {
 	Observers   int         `json:"observers,omitempty"`
 	Producers   [][]jobSpec `json:"async_producers,omitempty"`
 	Backlog     int         `json:"async_backlog,omitempty"` // > 0: one producer queues this many functions behind a blocked one
+	During      bool        `json:"async_during,omitempty"`  // the late traffic arrives WHILE the last function of the backlog is still running (the drainer has just caught up)
 }
 
 const closeJobID = 9000 // the job the close handler submits with MustExecute
@@ -599,14 +600,22 @@ func runCase(cs caseSpec, pick func(step int, enabled []int) int) *result {
 				e.act.acc = 1
 			}
 			for k := 1; k <= cs.Backlog; k++ {
-				async(jobSpec{ID: 20000 + k})
+				js := jobSpec{ID: 20000 + k}
+				if cs.During && k == cs.Backlog {
+					js.Yields = 6
+				}
+				async(js)
 			}
 			gate = true
 		})
 		// traffic on the same timer after the backlog has been drained (after the capacity-shrink branch)
 		s.Go("late", func() {
-			verifsched.WaitUntil(func() bool { return rc.endCnt[1][20000+cs.Backlog] > 0 })
-			for k := 0; k < 50; k++ {
+			if cs.During {
+				verifsched.WaitUntil(func() bool { return rc.startCnt[1][20000+cs.Backlog] > 0 })
+			} else {
+				verifsched.WaitUntil(func() bool { return rc.endCnt[1][20000+cs.Backlog] > 0 })
+			}
+			for k := 0; k < 50 && !cs.During; k++ {
 				if n, _ := timer.VerifAsyncList(g.Timer); n == 0 {
 					break
 				}
@@ -874,6 +883,7 @@ type runner struct {
 }
 
 func (rn *runner) one(cs caseSpec, label string, pick func(step int, en []int) int, replay map[string]interface{}) *result {
+	hx.Current("", "the process died (a panic or fatal error inside the library) while this workload ran under the cooperative scheduler; the schedule is the seeded one of this case", map[string]interface{}{"harness": "serializer", "label": label, "case": cs, "replay": replay})
 	res := runCase(cs, pick)
 	oracle(cs, res)
 	rep := rn.rep
@@ -954,6 +964,9 @@ func main() {
 	out := flag.String("out", "-", "")
 	replay := flag.String("replay", "", "re-run the case and schedule of a stored finding (json) instead of generating cases")
 	flag.Parse()
+	if *out != "-" && *out != "" {
+		hx.CurrentFile = *out + ".current"
+	}
 	logging.SetLevel(logging.LevelNone)
 	logging.Output = devNull{}
 	rep := hx.NewReport("serializer", *seed)
@@ -1060,6 +1073,46 @@ func main() {
 		if shrunk {
 			rep.Stat("async-shrink-branch-taken")
 		}
+	}
+	// part 4: one drainer lifetime consumes exactly 1022..1026 / 2046..2050 functions and the next Async arrives while the
+	// last of them is still running (the drainer has caught up with the list but is still alive)
+	for i, n := range []int{1021, 1022, 1023, 1024, 1025, 2047, 2048} {
+		if rep.TooMany() {
+			break
+		}
+		cseed := *seed*7927 + int64(i)
+		sr := rand.New(rand.NewSource(cseed))
+		cs := caseSpec{Executor: "goroutine", Subs: [][]jobSpec{{{ID: 1}}}, Close: -1, Backlog: n, During: true}
+		rn.one(cs, "caughtup", func(step int, en []int) int { return sr.Intn(len(en)) }, map[string]interface{}{"part": "caughtup", "case_seed": cseed})
+		rep.Case(fmt.Sprintf("caughtup%d/%d", cs.Backlog, cseed), true)
+		rep.Stat("async-next-call-while-last-of-a-long-drain-runs")
+	}
+	// part 5: a long job list on one connection: 126..300 jobs queue up behind a first job that takes its time, further
+	// submissions arrive while the tail is being executed
+	for i, n := range []int{126, 127, 128, 129, 130, 200, 257, 300} {
+		if rep.TooMany() {
+			break
+		}
+		cseed := *seed*7933 + int64(i)
+		sr := rand.New(rand.NewSource(cseed))
+		var first, second []jobSpec
+		id := 0
+		for k := 0; k < n; k++ {
+			id++
+			js := jobSpec{ID: id}
+			if k == 0 {
+				js.Yields = n + 20 // the others are submitted while this one runs
+			}
+			first = append(first, js)
+		}
+		for k := 0; k < 6; k++ {
+			id++
+			second = append(second, jobSpec{ID: id, Pre: n/2 + sr.Intn(n)})
+		}
+		cs := caseSpec{Executor: []string{"goroutine", "pool"}[i%2], PoolWorkers: 2, Subs: [][]jobSpec{first, second}, Close: -1}
+		rn.one(cs, "longlist", func(step int, en []int) int { return sr.Intn(len(en)) }, map[string]interface{}{"part": "longlist", "case_seed": cseed})
+		rep.Case(fmt.Sprintf("longlist%d/%d", n, cseed), true)
+		rep.Stat("conn-job-list-over-128")
 	}
 	rep.Write(*out)
 	_ = os.Stdout
